@@ -38,6 +38,11 @@ KIND = {'TokSpace': 'space', 'TokNewline': 'newline', 'TokComment': 'comment', '
 
 def pt_lex(chunks):
     from pico8.lua import lexer
+    bad = lexer.Lexer(version=8)
+    try:
+        bad.process_lines([(b'x = "unterminated\\', b'@@ `', b'y = [[ open\n')[len(chunks) % 3]])     # a failing lex first
+    except Exception:
+        pass
     lx = lexer.Lexer(version=8)
     lx.process_lines(chunks)
     return lx.tokens
